@@ -1,12 +1,12 @@
 """R-STEP / R-SCRATCH: lock-step position counters and per-call initialisation of scratch containers.
 
-R-STEP  A *counter* is an integer local or field that is advanced (`++`, `+= e`, `v = v + e`) inside
+R-STEP  A *counter* is an integer or pointer local / field that is advanced (`++`, `+= e`, `v = v + e`) inside
 a loop over an element sequence (or inside a per-element callback) and runs alongside the elements:
 an offset into a structure, a row number, a count.  For every update site the engine computes, on the
 CFG of one iteration (body entry -> next evaluation of the loop condition), the exact condition under
 which the site is executed: the disjunction over its control-dependence parents, recursively, as a
-DNF over the branch conditions of the body (`if (P) {..}`, `if (!P) continue;`, `?:`-free forms,
-`&&`/`||` are all the same CFG shape).  The *class* of a counter is the function
+DNF over the branch conditions of the body (`if (P) {..}`, `if (!P) continue;`, `&&`/`||`, De-Morgan
+forms are all the same formula; `v += c ? a : b` is split into two guarded advances).  The *class* of a counter is the function
 
         valuation of the branch atoms  ->  total advance in that iteration
 
